@@ -59,7 +59,7 @@ def live_toggle(circuit, fills: Sequence[dict], m: dict, turn_on: bool, explicit
         el.set_subcircuits(**{m["key"]: G.sub_to_objects(copy.deepcopy(spec))})
 
 
-def _close(a, b, rtol: float) -> bool:
+def _close(a, b, rtol: float, atol: float = 1e-300) -> bool:
     if a[0] != b[0]:
         return False
     if a[0] == "ok":
@@ -69,13 +69,14 @@ def _close(a, b, rtol: float) -> bool:
             if isinstance(x, str) or isinstance(y, str):
                 if x != y:
                     return False
-            elif not (abs(x - y) <= rtol * max(abs(x), abs(y)) + 1e-300):
+            elif not (abs(x - y) <= rtol * max(abs(x), abs(y)) + atol):
                 return False
         return True
     return a[1:] == b[1:]
 
 
 def reference_table(tree, explicit_fills, muts, observations: Dict[str, Callable[[Any], tuple]]) -> Dict[Tuple[bool, ...], Dict[str, tuple]]:
+    """`observations` here may differ from the ones applied to the live object (an independent way to obtain the expected result)."""
     table = {}
     for on in itertools.product((False, True), repeat=len(muts)):
         c = G.circuit_from_objects(tree, spec_state(explicit_fills, muts, on))
@@ -83,7 +84,7 @@ def reference_table(tree, explicit_fills, muts, observations: Dict[str, Callable
     return table
 
 
-def run_history(make_live: Callable[[], Any], fills, explicit_fills, muts, observations, table, ops: Sequence[Sequence], rtol: float = 1e-12):
+def run_history(make_live: Callable[[], Any], fills, explicit_fills, muts, observations, table, ops: Sequence[Sequence], rtol: float = 1e-12, atol: float = 1e-300):
     """Returns (first mismatch or None, number of observations made)."""
     live = make_live()
     on = [False] * len(muts)
@@ -99,7 +100,7 @@ def run_history(make_live: Callable[[], Any], fills, explicit_fills, muts, obser
             nobs += 1
             got = observations[op[1]](live)
             exp = table[tuple(on)][op[1]]
-            if not _close(got, exp, rtol):
+            if not _close(got, exp, rtol, atol):
                 return {"step": step, "op": list(op), "got": _short(got), "expected": _short(exp), "state": list(on)}, nobs
     return None, nobs
 
@@ -129,3 +130,79 @@ def shrink(ops: List[list], fails: Callable[[List[list]], bool]) -> List[list]:
                 changed = True
                 break
     return ops
+
+
+class Driver:
+    """Generic chunk runner: all sequences of `depth` operations that start with `prefix`, on one subject and route."""
+
+    def __init__(self, subjects: Dict[str, dict], live_obs: Dict[str, Callable], ref_obs: Optional[Dict[str, Callable]] = None, key_prefix: str = "history",
+                 rtol: float = 1e-12, atol: float = 1e-300, with_copy: bool = False, case_extra: Optional[dict] = None,
+                 obs_word: str = "observe"):
+        self.subjects, self.live_obs, self.ref_obs = subjects, live_obs, ref_obs or live_obs
+        self.key_prefix, self.rtol, self.atol, self.with_copy = key_prefix, rtol, atol, with_copy
+        self.case_extra = case_extra or {}
+        self.obs_word = obs_word
+        self._tables: Dict[str, dict] = {}
+
+    def alphabet(self, name: str) -> List[list]:
+        a = [["obs", k] for k in self.live_obs] + [["tog", k] for k in range(len(self.subjects[name]["muts"]))]
+        return a + ([["copy"]] if self.with_copy else [])
+
+    def run(self, name: str, route: str, ops):
+        subj = self.subjects[name]
+        explicit = subj.get("explicit", subj["fills"])
+        if name not in self._tables:
+            self._tables[name] = reference_table(subj["tree"], explicit, subj["muts"], self.ref_obs)
+        return run_history(lambda: ROUTES[route](subj["tree"], subj["fills"]), subj["fills"], explicit, subj["muts"], self.live_obs,
+                           self._tables[name], ops, self.rtol, self.atol)
+
+    def violation(self, name: str, route: str, ops) -> Optional[dict]:
+        bad, _ = self.run(name, route, ops)
+        if bad is None:
+            return None
+        ops = shrink(list(ops)[: bad["step"] + 1], lambda o: self.run(name, route, o)[0] is not None)
+        bad, _ = self.run(name, route, ops)
+        subj = self.subjects[name]
+        sig = ">".join((o[1] if o[0] == "obs" else subj["muts"][o[1]]["kind"] if o[0] == "tog" else o[0]) for o in ops)
+        return {"key": f"{self.key_prefix}|{sig}", "what": f"after the operation sequence {ops} on the live circuit {name} ({route} route), {self.obs_word} "
+                f"'{bad['op'][1]}' gives {bad['got']} but a circuit built directly with the same current parameters gives {bad['expected']}",
+                "case": dict(self.case_extra, history=name, route=route, ops=[list(o) for o in ops]), "detail": ""}
+
+    def chunk(self, name: str, route: str, prefix: List[list], depth: int) -> dict:
+        alpha = self.alphabet(name)
+        n = nobs = 0
+        viols: Dict[str, dict] = {}
+        outcomes: Dict[str, int] = {}
+        nontrivial = []
+        last = None
+        for rest in all_sequences(alpha, depth - len(prefix)):
+            ops = list(prefix) + list(rest)
+            if not any(o[0] == "obs" for o in ops):
+                continue
+            n += 1
+            last = ops
+            bad, k = self.run(name, route, ops)
+            nobs += k
+            togs = sum(1 for o in ops if o[0] == "tog")
+            o = f"{self.key_prefix}:{'agree' if bad is None else 'DIFFER'}/{togs} modifications"
+            outcomes[o] = outcomes.get(o, 0) + 1
+            if togs:
+                nontrivial.append(hash((name, route, repr(ops))))
+            if bad is not None:
+                v = self.violation(name, route, ops)
+                if v is not None:
+                    if v["key"] not in viols:
+                        v["count"] = 0
+                        viols[v["key"]] = v
+                    viols[v["key"]]["count"] += 1
+        return {"n": nobs, "nontrivial": nontrivial, "outcomes": outcomes, "violations": list(viols.values()), "traces": n, "transitions": n * depth,
+                "samples": [{"history_subject": name, "route": route, "operations": last}] if last and prefix and prefix[0] == ["tog", 0] else []}
+
+    def jobs(self, depth: int, routes=("objects", "cdc", "builder"), prefix_len: int = 1):
+        out = []
+        for name in self.subjects:
+            alpha = self.alphabet(name)
+            for route in routes:
+                for pre in itertools.product(alpha, repeat=prefix_len):
+                    out.append((name, route, [list(p) for p in pre], depth))
+        return out
